@@ -23,7 +23,7 @@ pub enum Ev {
     // foreign keys
     FkAction(ForeignKeyAction),
     // Postgres types
-    Value(Seq<char>),
+    Label(DynIden), TypeRefEv(TypeRef), TypeAsEv(TypeAs), TypeAlterOptEv(TypeAlterOpt),
 }
 pub trait VWrite {
     spec fn tr(&self) -> Seq<Ev>;
